@@ -154,4 +154,15 @@ theorem accepted_override_exceeds_current (s : Signer) (m : Signed ReqBody) (f :
     · omega
   · simp [hv] at h
 
+/-- Non-vacuity: a signer initialised at manifest number 42 whose FIRST request (no exchange yet) carries an override -
+7 and 42 are refused, 43 is accepted and becomes the number (the scenario of corpus `proto-ta/first-override-after-init-number`;
+seed C15-r6 accepted 7). -/
+example :
+    let s : Signer := { idKey := 4, proxyKey := 2, taKey := 1, objects := { number := 42 } }
+    let m : Signed ReqBody := { signer := 2, body := { nonce := 3 }, clear := { nonce := 3 } }
+    processSignerRequest s m (some 7) = .error .overrideTooLow ∧
+    processSignerRequest s m (some 42) = .error .overrideTooLow ∧
+    (processSignerRequest s m (some 43)).toOption.map (·.1.objects.number) = some 43 ∧
+    s.exchanges = [] := by decide
+
 end KM.Props.C15Src
